@@ -1,5 +1,6 @@
 import MaddyVerif.Model.DkimWire
 import MaddyVerif.Model.DkimKeys
+import MaddyVerif.Model.DkimTime
 import Driver.Util
 import Driver.C08Sha
 namespace Driver.C08
@@ -140,16 +141,20 @@ def algoName : Algo → String
 
 open MaddyVerif.DkimKeys in
 structure KStep where
-  lit : Bool
+  kind : Char   -- I | L | X (a key is imported, no record) | D (the record file is deleted)
   algo : Algo
   idx : List Nat
 
 def kstep? (s : String) : Option KStep :=
   match s.toList with
+  | 'D' :: rest =>
+    match (String.ofList rest).toNat? with
+    | some i => some ⟨'D', .ed25519, [i]⟩
+    | none => none
   | k :: a :: rest =>
-    if k != 'L' && k != 'I' then none else
+    if k != 'L' && k != 'I' && k != 'X' then none else
     match algoOf a, ((String.ofList rest).splitOn ".").mapM String.toNat? with
-    | some al, some ix => if k == 'L' && ix.length != 1 then none else some ⟨k == 'L', al, ix⟩
+    | some al, some ix => if k != 'I' && ix.length != 1 then none else some ⟨k, al, ix⟩
     | _, _ => none
   | _ => none
 
@@ -171,7 +176,18 @@ def keysRun (tmpl sel : Bytes) (doms : List (Bytes × Bytes)) : List KStep → F
     match st.idx.mapM (fun i => doms[i]?) with
     | none => none
     | some ds =>
-      let t := if st.lit then (match ds with | d :: _ => expand d.1 sel tmpl | [] => tmpl) else tmpl
+      let own := match ds with | d :: _ => expand d.1 sel tmpl | [] => tmpl
+      if st.kind == 'X' then
+        let line := if (fs.lookup own).isNone then "imp=" ++ hexBytes own else "imp=-"
+        let s' := importKey fs n own st.algo
+        (keysRun tmpl sel doms rest s'.1 s'.2).map (line :: ·)
+      else if st.kind == 'D' then
+        match fs.lookup (dnsPath own) with
+        | some (.txt _ _) =>
+          (keysRun tmpl sel doms rest (deleteFile fs (dnsPath own)) n).map (("del=" ++ hexBytes (dnsPath own)) :: ·)
+        | _ => (keysRun tmpl sel doms rest fs n).map ("del=-" :: ·)
+      else
+      let t := if st.kind == 'L' then own else tmpl
       let r := init ⟨t, sel, st.algo, ds⟩ fs n
       let new := r.fs.take (r.fs.length - fs.length)
       let use := ds.map (fun d => match r.signers.lookup d.2 with
@@ -198,6 +214,39 @@ def keysOp (tmpl sel : String) (doms steps : List String) : String :=
     | none => "bad-op"
   | _, _, _, _ => "bad-op"
 
+/-! ### `clock`: the life of one modifier instance on a manual clock
+
+`clock <t0> <sig_expiry ms | default> <algo> <hc> <bc> <sender#> | <up>:<gap>:<d>,<d>… … | <fields> | <body>`:
+`Init` at `t0`; per message the clock advances by `up`, `ModStateForMsg`, `gap` later the message is
+signed; verification `d` ms after the signing.  Per message `t=… x=… exp=<one digit per d>`. -/
+
+def natList? (s : String) : Option (List Nat) := (s.splitOn ",").mapM String.toNat?
+
+open MaddyVerif.DkimTime in
+def clockRun (t0 expiry : Nat) : Nat → List String → Option (List String)
+  | _, [] => some []
+  | now, m :: rest =>
+    match m.splitOn ":" with
+    | [u, g, ds] =>
+      match u.toNat?, g.toNat?, natList? ds with
+      | some up, some gap, some delays =>
+        let l : Life := ⟨t0, now + up, now + up + gap⟩
+        let x := tagX l expiry
+        let xs := match x with | some v => toString v | none => "-"
+        let bits := String.join (delays.map (fun d => if expired (l.signAt + d) x then "1" else "0"))
+        (clockRun t0 expiry l.signAt rest).map (s!"t={tagT l} x={xs} exp={bits}" :: ·)
+      | _, _, _ => none
+    | _ => none
+
+def clockOp (t0 e : String) (msgs : List String) : String :=
+  let e? := if e == "default" then some MaddyVerif.DkimTime.defaultExpiry else e.toNat?
+  match t0.toNat?, e? with
+  | some t, some ex =>
+    match clockRun t ex t msgs with
+    | some ls => " ; ".intercalate ls
+    | none => "bad-op"
+  | _, _ => "bad-op"
+
 def splitHash (toks : List String) : List String × List String :=
   (toks.takeWhile (· != "#"), (toks.dropWhile (· != "#")).drop 1)
 
@@ -215,6 +264,7 @@ def handle (toks : List String) : String :=
   | _ =>
   match c08groups toks with
   | [["keys", tmpl, sel], doms, steps] => keysOp tmpl sel doms steps
+  | [["clock", t0, e, _, _, _, _], msgs, _, _] => clockOp t0 e msgs
   | ["fts" :: ov, sg, fields] =>
     match bytesList? ov, bytesList? sg, bytesList? fields with
     | some ov, some sg, some fields => showList (fieldsToSign ov sg (fields.map gmKey))
